@@ -288,6 +288,9 @@ def run(prog, check):
              'aliases are replaced token-wise in opaque and in simple terms' if tok else
              'alias replacement skips opaque terms or is not token based', 'a placeholder inside a complex expression')
     # ---- R2 ----------------------------------------------------------------------------------------
+    # the canonical prefix (sector full code) is computed afresh for every sector by one function
+    from .C18 import check_full_codes
+    check_full_codes(prog, check, rule='C05.R2')
     main = M.methods.get('main')
     if main is None:
         raise AnalysisError('Model.main not found')
